@@ -83,6 +83,23 @@ Definition OC_tail2 : rx := Cat (optg 16 (Cat SPr (lit s_DESC (Cat SPr (Group 17
 Definition OC_tail1 : rx := Cat (optg 5 (Cat SPr (lit s_NAME (Cat SPr (Group 6 (QDESCRSr 7)))))) OC_tail2.
 Definition R_oc : rx := Cat (ch 40) (Cat WSPr (Cat (Group 1 (NUMOID 2)) OC_tail1)).
 
+(* the part common to the three description types: "(" WSP oid [NAME] [DESC] [OBSOLETE] then T *)
+Definition HEADr (T : rx) : rx :=
+  Cat (ch 40) (Cat WSPr (Cat (Group 1 (NUMOID 2))
+    (Cat (optg 5 (Cat SPr (lit s_NAME (Cat SPr (Group 6 (QDESCRSr 7))))))
+    (Cat (optg 16 (Cat SPr (lit s_DESC (Cat SPr (Group 17 (QDSTRINGr 18))))))
+    (Cat (optg 19 (Cat SPr (lit' s_OBSOLETE))) T))))).
+
+(* DIT content rules *)
+Definition s_AUX : list N := [65; 85; 88]%N.
+Definition s_NOT : list N := [78; 79; 84]%N.
+Definition DCR_t8 : rx := Cat (Group 112 (EXTr 113)) (Cat WSPr (ch 41)).
+Definition DCR_t7 : rx := Cat (optg 89 (Cat SPr (lit s_NOT (Cat SPr (Group 90 (OIDSr 91)))))) DCR_t8.
+Definition DCR_t6 : rx := Cat (optg 66 (Cat SPr (lit s_MAY (Cat SPr (Group 67 (OIDSr 68)))))) DCR_t7.
+Definition DCR_t5 : rx := Cat (optg 43 (Cat SPr (lit s_MUST (Cat SPr (Group 44 (OIDSr 45)))))) DCR_t6.
+Definition DCR_t4 : rx := Cat (optg 20 (Cat SPr (lit s_AUX (Cat SPr (Group 21 (OIDSr 22)))))) DCR_t5.
+Definition R_dcr : rx := HEADr DCR_t4.
+
 (* first differing pair of subterms, for maintenance *)
 Fixpoint rx_diff (a b : rx) : option (rx * rx) :=
   match a, b with
@@ -99,4 +116,7 @@ Fixpoint rx_diff (a b : rx) : option (rx * rx) :=
   end.
 
 Lemma oc_regex_eq : rx_object_class = R_oc.
+Proof. vm_compute. reflexivity. Qed.
+
+Lemma dcr_regex_eq : rx_dit_content_rule = R_dcr.
 Proof. vm_compute. reflexivity. Qed.
